@@ -88,7 +88,7 @@ def facts_path(backend="blst", profile="dev", repo=None, crate="blsful", lib_onl
     key = tree_hash(repo, extra=backend + "|" + flags + "|" + crate)
     fdir = os.path.join(CACHE, "facts")
     os.makedirs(fdir, exist_ok=True)
-    out = os.path.join(fdir, "%s-%s-%s-%s.json" % (crate, backend, profile, key[:24]))
+    out = os.path.join(fdir, "%s-%s-%s-%s.json.gz" % (crate, backend, profile, key[:24]))
     lockp = os.path.join(CACHE, "lock-%s-%s-%s" % (crate, backend, profile))
     with open(lockp, "w") as lk:
         fcntl.flock(lk, fcntl.LOCK_EX)
@@ -102,7 +102,7 @@ def facts_path(backend="blst", profile="dev", repo=None, crate="blsful", lib_onl
             for d in os.listdir(fp):
                 if d.startswith(crate + "-"):
                     shutil.rmtree(os.path.join(fp, d), ignore_errors=True)
-        tmp = out + ".tmp"
+        tmp = out[:-3] + ".tmp"
         if os.path.exists(tmp):
             os.remove(tmp)
         env = dict(os.environ)
@@ -125,14 +125,19 @@ def facts_path(backend="blst", profile="dev", repo=None, crate="blsful", lib_onl
             )
         if not os.path.exists(tmp):
             raise ExtractError("driver produced no fact file (backend=%s profile=%s)\n%s" % (backend, profile, p.stdout[-3000:]))
-        os.replace(tmp, out)
+        import gzip
+
+        with open(tmp, "rb") as fi, gzip.open(out + ".part", "wb", compresslevel=3) as fo:
+            shutil.copyfileobj(fi, fo)
+        os.remove(tmp)
+        os.replace(out + ".part", out)
         # keep the facts directory small: drop stale files of this configuration
         pref = "%s-%s-%s-" % (crate, backend, profile)
         olds = sorted(
-            (f for f in os.listdir(fdir) if f.startswith(pref) and f.endswith(".json")),
+            (f for f in os.listdir(fdir) if f.startswith(pref) and (f.endswith(".json.gz") or f.endswith(".json"))),
             key=lambda f: os.path.getmtime(os.path.join(fdir, f)),
         )
-        for f in olds[:-48]:
+        for f in olds[:-400]:
             os.remove(os.path.join(fdir, f))
         sys.stderr.write("[extract] %s/%s in %.1fs -> %s\n" % (backend, profile, time.time() - t0, os.path.basename(out)))
     return out
@@ -144,7 +149,9 @@ _mem = {}
 def facts(backend="blst", profile="dev", repo=None):
     p = facts_path(backend, profile, repo)
     if p not in _mem:
-        with open(p) as fh:
+        import gzip
+
+        with (gzip.open(p, "rt") if p.endswith(".gz") else open(p)) as fh:
             _mem[p] = json.load(fh)
     return _mem[p]
 
